@@ -335,16 +335,24 @@ def main():
     # (the function was restructured so that the overlay no longer applies): the unit's replay oracle - an executable restatement
     # of the same postcondition, run on the real code over a stated finite set of inputs - may still find a concrete failing input.
     oracle_standins = []
-    for u in sorted(undecided_units):
+    oracle_units = sorted(undecided_units)
+    if tier == 'thorough' and not args.only:
+        # thorough: every oracle of the property also runs on the current tree (supplementary, bounded; keeps the oracles honest)
+        oracle_units = sorted(set(oracle_units) | set(u for u in units if registry.UNITS[u].get('oracle')))
+    for u in oracle_units:
         orc = registry.UNITS[u].get('oracle')
         if not orc:
             continue
         ok, info = run_oracle(orc, args.repo)
         fails = [l for l in info.split('\n') if 'FAILING INPUT' in l][:5]
-        oracle_standins.append({'unit': u, 'oracle': orc['file'], 'kind': 'bounded', 'failing_input_found': ok, 'failing_inputs': fails})
+        ran = re.findall(r'test result: ok\. (\d+) passed', info)
+        oracle_standins.append({'unit': u, 'oracle': orc['file'], 'kind': 'bounded', 'role': 'stand-in for an undecided unit' if u in undecided_units else 'supplementary (unit is proved)',
+                                'tests_passed': int(ran[0]) if ran else 0, 'failing_input_found': ok, 'failing_inputs': fails})
+        if not ok and not ran and u not in undecided_units:
+            undecided.append('oracle %s did not run: %s' % (orc['file'], info[-300:].replace('\n', ' | ')))
         if ok:
             violations.append({'obligation': 'bounded-oracle::%s' % u, 'unit': u, 'function': None, 'kind': 'bounded-oracle',
-                               'message': 'unit %s could not be extracted (code restructured); its bounded replay oracle found a failing input on the real code' % u,
+                               'message': ('unit %s could not be extracted (code restructured); its bounded replay oracle found a failing input on the real code' % u) if u in undecided_units else ('bounded replay oracle of unit %s found a failing input on the real code' % u),
                                'clause': (fails[0] if fails else '')[:300], 'source': orc['target'], 'rendered': info[-3000:], 'oracle_found': True})
 
     wall = time.time() - t_start
